@@ -242,11 +242,65 @@ fn parse_items(s: &str) -> Vec<(usize, usize)> {
     }).collect()
 }
 
+/// one call described as a tuple: encode(lens) or decode(orig, rec)
+#[derive(Clone, Debug)]
+enum Call {
+    Enc(Vec<usize>),
+    Dec(Vec<(usize, usize)>, Vec<(usize, usize)>),
+}
+impl Call {
+    fn dump(&self) -> String {
+        match self {
+            Call::Enc(l) => format!("enc/{}", fmt_list(l)),
+            Call::Dec(o, r) => format!("dec/{}/{}", fmt_items(o), fmt_items(r)),
+        }
+    }
+    fn parse(s: &str) -> Call {
+        let p: Vec<&str> = s.split('/').collect();
+        if p[0] == "enc" {
+            Call::Enc(if p[1] == "-" { vec![] } else { p[1].split(',').map(parse_usize).collect() })
+        } else {
+            Call::Dec(parse_items(p[1]), parse_items(p[2]))
+        }
+    }
+    fn check(&self, data: &Data, k: usize, r: usize) -> Result<(), V> {
+        match self {
+            Call::Enc(l) => check_encode(data, k, r, l),
+            Call::Dec(o, rr) => check_decode(data, k, r, o, rr),
+        }
+    }
+}
+
+/// two one-shot calls back to back on one fresh OS thread: the second must behave as if it were
+/// the first (the one-shot functions have no state a caller could know about)
+fn check_pair(data: &Data, k: usize, r: usize, first: &Call, second: &Call) -> Result<(), V> {
+    std::thread::scope(|s| {
+        std::thread::Builder::new()
+            .stack_size(4 << 20)
+            .spawn_scoped(s, || {
+                let res = guard(|| {
+                    let _ = first.check(data, k, r);
+                    second.check(data, k, r)
+                });
+                match res {
+                    Ok(r) => r.map_err(|(e, o)| (format!("after the call {} on the same thread: {e}", first.dump()), o)),
+                    Err(p) => Err(("no panic".into(), format!("PANIC: {p}"))),
+                }
+            })
+            .expect("spawn")
+            .join()
+            .expect("join")
+    })
+}
+
 pub fn replay(_ctx: &Ctx, case: &str) -> Result<(), String> {
     let kv = Kv::parse(case)?;
     let refm = RefModel::new();
     let (k, r) = (kv.usize("k"), kv.usize("r"));
     let data = Data::new(&refm, k, r, kv.u64("seed"));
+    if kv.opt("first").is_some() {
+        return check_pair(&data, k, r, &Call::parse(kv.str("first")), &Call::parse(kv.str("second"))).map_err(|(e, o)| format!("expected {e}; observed {o}"));
+    }
     let res = if kv.str("fn") == "encode" {
         check_encode(&data, k, r, &kv.list("lens"))
     } else {
@@ -397,6 +451,63 @@ pub fn run(ctx: &Ctx, rep: &mut Report) {
             rep.violation(v);
         }
     }
+    // ---- call pairs on one thread
+    let mut pair_total = 0u64;
+    for &(k, r) in &[(2usize, 1usize), (2, 2), (3, 2)] {
+        let data = &datas[&(k, r)];
+        let mut calls: Vec<Call> = Vec::new();
+        // encode tuples: lists up to k+1 over {64, 2, 66}
+        for l in sequences(&[64usize, 2, 66], k + 1) {
+            calls.push(Call::Enc(l));
+        }
+        // decode tuples: every valid received-set at 64 bytes, and short (possibly invalid) lists
+        for mask in crate::rt::subsets_at_least_k(k, r) {
+            let (og, rg) = crate::rt::split_mask(k, r, mask);
+            calls.push(Call::Dec(og.iter().map(|i| (*i, 64)).collect(), rg.iter().map(|i| (*i, 64)).collect()));
+        }
+        let mut oa = Vec::new();
+        for i in [0usize, 1, k] {
+            for c in [64usize, 2] {
+                oa.push((i, c));
+            }
+        }
+        let ol = sequences(&oa, if ctx.thorough() { 2 } else { 1 });
+        let mut ra = Vec::new();
+        for i in [0usize, r] {
+            for c in [64usize, 2] {
+                ra.push((i, c));
+            }
+        }
+        let rl = sequences(&ra, 1);
+        for o in &ol {
+            for rr in &rl {
+                calls.push(Call::Dec(o.clone(), rr.clone()));
+            }
+        }
+        let n = calls.len();
+        let res: Vec<Option<Violation>> = par_for(n * n, 64, |idx| {
+            let (a, b) = (&calls[idx / n], &calls[idx % n]);
+            match check_pair(data, k, r, a, b) {
+                Ok(()) => None,
+                Err((exp, obs)) => Some(Violation {
+                    key: format!("pair-k{k}r{r}-{}-then-{}", a.dump(), b.dump()),
+                    case: Kv::new().with("k", k).with("r", r).with("seed", seed).with("first", a.dump()).with("second", b.dump()).dump(),
+                    expected: exp,
+                    observed: obs,
+                }),
+            }
+        });
+        pair_total += (n * n) as u64;
+        for v in res.into_iter().flatten() {
+            rep.violation(v);
+        }
+        if k == 2 && r == 2 {
+            rep.sample(Kv::new().with("k", k).with("r", r).with("first", calls[n / 3].dump()).with("second", calls[n - 2].dump()).dump());
+        }
+    }
+    rep.extra("call_pairs", J::i(pair_total));
+    rep.bound("call_pairs", J::s("every ordered pair of calls from a reduced tuple alphabet (all encode lists up to k+1 over 3 sizes, every valid received-set, short invalid lists) for (2,1) (2,2) (3,2), each pair on a fresh OS thread; the second call is checked"));
+    let total = total + pair_total as usize;
     rep.states = total as u64;
     rep.transitions = total as u64;
     rep.evaluations = total as u64;
@@ -404,7 +515,7 @@ pub fn run(ctx: &Ctx, rep: &mut Report) {
     rep.distinct = total as u64;
     rep.extra("encode_tuples", J::i(n_enc));
     rep.extra("decode_tuples", J::i(n_dec));
-    for i in [1, total / 3, total / 2, total - 1] {
+    for i in [1, (total - pair_total as usize) / 3, (total - pair_total as usize) / 2, total - pair_total as usize - 1] {
         rep.sample(case_of(i).dump());
     }
 }
